@@ -287,10 +287,33 @@ fn metric_expected_name(n: usize) -> String {
 }
 
 fn case_profile(c: &mut Ctx, rows: &[(Bucket, Edge, u32, u32)], decl: &(Vec<String>, Vec<String>, Vec<(String, String)>)) {
-    const ROLES: [&str; 6] = ["past", "present", "future", "edge", "regret", "policy"];
     let p = build_profile(rows);
-    let orig = profile_rows(&p);
-    let typed = profile_typed(&p);
+    case_profile_obj(c, p, intended_profile(rows), decl, "set through the hook");
+}
+/// values reached through add_regret / add_policy (never through the setters load() uses)
+fn case_profile_updates(c: &mut Ctx, rng: &mut Rng, rows: &[(Bucket, Edge, u32, u32)], decl: &(Vec<String>, Vec<String>, Vec<(String, String)>)) {
+    let (p, tracked) = build_profile_by_updates(rng, rows);
+    for t in &tracked {
+        let r = f32::from_bits(t.2);
+        if r < -3e5 {
+            c.run.count("blueprint regret below REGRET_MIN reached by add_regret");
+        } else if r.abs() > 3e5 {
+            c.run.count("blueprint regret beyond 3e5 reached by add_regret");
+        }
+    }
+    case_profile_obj(c, p, tracked, decl, "reached by add_regret/add_policy");
+}
+/// `typed` is the harness's own record of what the profile must hold (never read from the object)
+fn case_profile_obj(c: &mut Ctx, p: Profile, typed: Vec<(Bucket, Edge, u32, u32)>, decl: &(Vec<String>, Vec<String>, Vec<(String, String)>), how: &str) {
+    const ROLES: [&str; 6] = ["past", "present", "future", "edge", "regret", "policy"];
+    let orig = typed_rows(&typed);
+    c.run.spec_checked += 1;
+    c.run.count(&format!("blueprint built: values {how}"));
+    let held = profile_typed(&p);
+    if held != typed {
+        let k = held.iter().zip(typed.iter()).position(|(a, b)| a != b).unwrap_or(held.len().min(typed.len()));
+        c.run.fail("profile-holds-other-values-than-given", &format!("blueprint {} rows, values {how}", typed.len()), &format!("row {k}: {:?}", typed.get(k).map(|t| (t.2, t.3))), &format!("{:?}", held.get(k).map(|t| (t.2, t.3))));
+    }
     let before = c.before_save();
     c.run.evaluations += 1;
     let saved = catch(std::panic::AssertUnwindSafe(|| p.save()));
@@ -335,8 +358,11 @@ fn case_profile(c: &mut Ctx, rows: &[(Bucket, Edge, u32, u32)], decl: &(Vec<Stri
 fn case_metric(c: &mut Ctx, rows: &[(u64, u32)], decl: &(Vec<String>, Vec<String>, Vec<(String, String)>)) {
     const ROLES: [&str; 2] = ["xor", "dx"];
     let m = build_metric(rows);
-    let orig = metric_rows(&m);
+    let orig = intended_metric(rows); // the harness's own record, not read back from the object
     let typed = metric_typed(&m);
+    if metric_rows(&m) != orig {
+        c.run.fail("metric-holds-other-values-than-given", &format!("metric {} rows", orig.len()), "the entries given", "different entries");
+    }
     let before = c.before_save();
     c.run.evaluations += 1;
     let saved = catch(std::panic::AssertUnwindSafe(|| m.save()));
@@ -518,7 +544,7 @@ fn main() {
     let big = if deep { 40000 } else { 4000 };
     let nseq = if deep { 60 } else { 8 };
     c.run.rule = format!(
-        "real save()+load() in a scratch directory for blueprint/metric/isomorphism tables: empty, one row, every edge kind x every street x every special float pattern (±0, ±inf, quiet/signalling NaN payloads, MAX, MIN_POSITIVE, subnormals, REGRET_MIN), {nrand} random tables of 0..60 rows per kind, tables of thousands of rows (blueprint {big} rows; metric 8128/10296/14196 rows = the flop/turn/preflop file names; lookup per street), keys with the sign bit set; the file bytes (hex up to {HEX_LIMIT} bytes, else length+FNV-1a) and the reloaded content are compared with the Lean model; plus {nseq} SEQUENCES of 12 saves per table kind (transitions too, file only) without clean-up, half of them into one directory and half alternating between TWO working directories inside the same process (the file must appear under the current directory, the other directory must stay untouched, and earlier saves must still load correctly on return) (large, small, large, same size, empty, one row, ... so that a save lands over a longer / shorter / equal-length / identical file); after EVERY save the complete file (length and all bytes) must equal an independently written encoding of the table just saved and pass a strict COPY reader that requires end-of-file right after the trailer; plus large tables (lookup to 322,638 rows = 8 MiB; metric, blueprint, transitions) sized so that a row's field count or the trailer straddles / follows a multiple of 8 KiB and (lookup; all kinds in the thorough tier) 1 MiB, compared by length + checksum; non-trivial = at least one row; distinct by table content");
+        "real save()+load() in a scratch directory for blueprint/metric/isomorphism tables: empty, one row, every edge kind x every street x every special float pattern (±0, ±inf, quiet/signalling NaN payloads, MAX, MIN_POSITIVE, subnormals, REGRET_MIN), {nrand} random tables of 0..60 rows per kind, 400+ blueprints whose values are reached by add_regret/add_policy from zero (not through the setters that load() uses), with cumulative regrets far beyond ±3e5; the EXPECTED table is always the harness's own record of the values given / tracked in f32 arithmetic, never read back from the object under test; tables of thousands of rows (blueprint {big} rows; metric 8128/10296/14196 rows = the flop/turn/preflop file names; lookup per street), keys with the sign bit set; the file bytes (hex up to {HEX_LIMIT} bytes, else length+FNV-1a) and the reloaded content are compared with the Lean model; plus {nseq} SEQUENCES of 12 saves per table kind (transitions too, file only) without clean-up, half of them into one directory and half alternating between TWO working directories inside the same process (the file must appear under the current directory, the other directory must stay untouched, and earlier saves must still load correctly on return) (large, small, large, same size, empty, one row, ... so that a save lands over a longer / shorter / equal-length / identical file); after EVERY save the complete file (length and all bytes) must equal an independently written encoding of the table just saved and pass a strict COPY reader that requires end-of-file right after the trailer; plus large tables (lookup to 322,638 rows = 8 MiB; metric, blueprint, transitions) sized so that a row's field count or the trailer straddles / follows a multiple of 8 KiB and (lookup; all kinds in the thorough tier) 1 MiB, compared by length + checksum; non-trivial = at least one row; distinct by table content");
 
     let dp = declared::<Profile>();
     let dm = declared::<Metric>();
@@ -562,6 +588,23 @@ fn main() {
         let buckets: Vec<Bucket> = (0..nb).map(|_| any_bucket(&mut rng)).collect();
         let rows: Vec<_> = (0..n).map(|_| (buckets[rng.below(nb) as usize], any_edge(&mut rng), any_f32(&mut rng), any_f32(&mut rng))).collect();
         case_profile(&mut c, &rows, &dp);
+    }
+    // values reached by training-style updates, incl. regrets far below REGRET_MIN = -3e5 and beyond
+    // +3e5, infinities and NaNs: the file must hold them and load() must return them unchanged
+    for i in 0..(if deep { 4000 } else { 400 }) {
+        let n = 1 + rng.below(8);
+        let rows: Vec<_> = (0..n)
+            .map(|j| {
+                let r = match (i + j as usize) % 4 {
+                    0 => (-(3e5 + rng.unit() * 1e7) as f32).to_bits(),
+                    1 => ((3e5 + rng.unit() * 1e9) as f32).to_bits(),
+                    _ => any_f32(&mut rng),
+                };
+                (any_bucket(&mut rng), any_edge(&mut rng), r, any_f32(&mut rng))
+            })
+            .collect();
+        let mut fork = rng.fork();
+        case_profile_updates(&mut c, &mut fork, &rows, &dp);
     }
     {
         let mut rows = vec![];
